@@ -891,6 +891,8 @@ impl Check for C09 {
         h.u64(out.trace);
         h.str(&case.base.label);
         h.u64(case.cached as u64);
+        h.u64(out.saves_ok * 1_000_003 + out.saves_failed_expected * 10_007 + out.reads * 101 + out.writes);
+        h.str(out.violation.as_ref().map(|v| v.0.as_str()).unwrap_or("held"));
         rep.trace_hash = h.finish();
         rep.nontrivial = out.saves_ok > 0;
         rep.count("saves_ok", out.saves_ok);
